@@ -264,7 +264,7 @@ def do_check(a):
     seed = int(os.environ.get("VERIF_SEED", "0") or 0)
     tier = a.tier
     vc_timeout = 20.0 if tier == "quick" else 120.0
-    job_timeout = 600.0 if tier == "quick" else 4000.0
+    job_timeout = 600.0 if tier == "quick" else 9000.0
     findings = load_findings(prop)
     lock = load_lock()
 
